@@ -255,6 +255,37 @@ class Random(Fam):
                 yield dict(op='find', k=k, pre=list(pre), seqs=[seqs[0]], typ=rng.choice(['bytes', 'bytearray', 'Seq']))
 
 
+class ManyOccurrences(Fam):
+    """one k-mer occurring 255, 256, 257, 512 (thorough: 1024, 4096) times - in one sequence, split over strands, split over sequences: a signature
+    records WHETHER a k-mer occurs, never how often (counters of any width must not wrap it away)"""
+    name = 'many-occurrences'
+    exhaustive = True
+    procs = 8
+
+    def inputs(self, ctx):
+        counts = [255, 256, 257, 512] + ([1024, 4096] if ctx.tier == 'thorough' else [])
+        self.rule = (f'tandem repeats of prefix + k-mer + spacer, {counts} occurrences of the same k-mer, all on the forward strand / half on each strand / '
+                     f'spread over 1, 2 and 128 sequences; (k, prefix) in (2, AC), (5, AT), (11, ATGAC), (12, AT); a second k-mer occurring once; array, set and default accumulators')
+        comp = bytes.maketrans(b'ACGT', b'TGCA')
+        for k, pre in ((2, b'AC'), (5, b'AT'), (11, b'ATGAC'), (12, b'AT')):
+            kmer = (b'GGCCGCGGCCGG')[:k]
+            unit = pre + kmer + b'C'
+            once = pre + (b'CCGGCCGGCCGC')[:k] + b'G'
+            for c in counts:
+                fwd = unit * c
+                half = unit * (c // 2)
+                rc = half.translate(comp)[::-1]
+                layouts = {'forward': [once + fwd], 'both-strands': [half + once + rc + (unit if c % 2 else b'')],
+                           'two-sequences': [half + (unit if c % 2 else b''), once, rc],
+                           'many-sequences': [unit * (c // 128)] * 128 + [unit * (c % 128), once]}
+                for name, seqs in layouts.items():
+                    accs = ['set', 'default'] + (['array'] if k <= 11 else [])
+                    yield dict(op='sig', k=k, pre=list(pre), seqs=[list(x) for x in seqs], types=['bytes'], accs=accs, single=False, layout=f'{name} x{c}')
+
+    def describe(self, inp, rec):
+        return f"k={inp['k']} prefix={bytes(inp['pre'])!r} {inp['layout']}"
+
+
 class LongContigs(Fam):
     """Contigs longer than 2^16 / 2^20 nt.  TLC judges overlapping 2,000-nt pieces of the contig (overlap |prefix|+k-1, so that every
     prefix+k-mer window lies inside some piece - lemma LemmaPieces, model-checked); the signature of the whole contig must be the
@@ -415,7 +446,7 @@ def run_concurrent(ctx):
     core.run_family(ctx, fam, inputs=inputs)
 
 
-FAMILIES = [ExhaustiveN, ExhaustiveMixed, Random]
+FAMILIES = [ExhaustiveN, ExhaustiveMixed, Random, ManyOccurrences]
 
 
 def run(ctx):
